@@ -1,3 +1,4 @@
 import PydapModel.Generated.Tables
+import PydapModel.Path
 import PydapModel.Sexp
 import PydapModel.Slice
